@@ -107,10 +107,59 @@ class _Named(io.BytesIO):
         self.name = name
 
 
+def same_tick_updates(rep):
+    """Updates in quick succession on a file system with coarse timestamps: a document replaced by another of the SAME length
+    within one timestamp tick (the layer answers every stat with the same, frozen time) must still be the one returned."""
+    from hashstore.filehashstore import FileHashStore
+    from .. import env
+    env.install()
+    env.reset_execution()
+    root = os.path.join(common.scratch(), "c11-tick")
+    import shutil
+    shutil.rmtree(root, ignore_errors=True)
+    store = FileHashStore(common.props(root))
+    env.set_root(root)
+    docs = {"a": b"<v status='A'/>", "b": b"<v status='B'/>", "c": pattern(8192 + 17, 1), "d": pattern(8192 + 17, 2)}
+    paths = {}
+    for k, v in docs.items():
+        paths[k] = os.path.join(common.scratch(), "c11tick_%s.xml" % k)
+        with open(paths[k], "wb") as f:
+            f.write(v)
+    n = 0
+    env.STATE.frozen_mtime = True
+    env.CUR.w = env.BaseWorker("T1")
+    try:
+        for pid in ("tick", "tick2"):
+            for fmt in (None, "c"):
+                for seq in (("a", "b"), ("a", "b", "a"), ("c", "d"), ("c", "d", "c", "d")):
+                    for k in seq:
+                        n += 1
+                        try:
+                            if fmt is None:
+                                store.store_metadata(pid, paths[k])
+                                got = store.retrieve_metadata(pid)
+                            else:
+                                store.store_metadata(pid, paths[k], fmt)
+                                got = store.retrieve_metadata(pid, fmt)
+                            b = got.read()
+                            got.close()
+                            ok, what = b == docs[k], "retrieve_metadata does not return the document stored last (same length, same timestamp tick)"
+                        except Exception as e:  # noqa: BLE001
+                            ok, what = False, "raised %s" % type(e).__name__
+                        if not ok:
+                            rep.violation({"kind": "roundtrip", "part": "same-tick", "what": what},
+                                          {"pid": pid, "format": fmt, "sequence": list(seq), "at": k})
+    finally:
+        env.CUR.w = None
+        env.STATE.frozen_mtime = False
+    rep.coverage["same_tick_update_cases"] = n
+
+
 def main(tier):
     rep = common.Report("C11", tier, "model_checking")
     run_spec(rep, C11Spec(tier), "closure", time_cap=120 if tier == "quick" else 3000)
     sizes_roundtrip(rep)
+    same_tick_updates(rep)
     rep.assumptions += ["alphabet: pids 'ab'/'a', formats omitted/explicit default/'c'/'bc' (('ab','c') and ('a','bc') "
                         "concatenate alike), documents v1 (5 bytes) / v2 (3 buffers + 7 bytes)",
                         "de-duplication ignores empty directories in this check"]
